@@ -337,6 +337,13 @@ class Codec:
         viol = []
         if out[0] == 'err' and not isinstance(out[1], (TypeError, ValueError)):
             viol.append(('C09', 'error_class', 'scrub %r: %r' % (a, out[1])))
+        if a[0] == 'str':
+            want = O.format_string_accepts(a[1], self.mod.AnsiFormat.__members__)
+            if want is True and out[0] != 'ok':
+                viol.append(('C14', 'accept_wellformed', 'the directive string %r is rejected: %r' % (a[1], out[1])))
+            if want is False and not (out[0] == 'err' and isinstance(out[1], ValueError)):
+                viol.append(('C14', 'reject_malformed', 'the malformed directive string %r is %s' % (
+                    a[1], 'accepted as %r' % [str(q) for q in out[1]] if out[0] == 'ok' else 'answered with %r' % out[1])))
         # "nested lists are flattened in order": wrapping each maximal run of ints in a list of its own
         # must not change the result
         # (not claimed when a string element itself carries integer codes: a colour group given partly as
@@ -366,6 +373,9 @@ class Codec:
         F = self.mod.AnsiFormat
         A = self.mod.AnsiString
         names = list(F.__members__)
+        if name is None and rng.random() < 0.5:
+            multi = [n for n in names if any(';' in str(q) for q in F.__members__[n].ansi_settings) or len(F.__members__[n].ansi_settings) > 1]
+            name = rng.choice(multi) if multi else None
         name = name or rng.choice(names)
         m = F.__members__[name]
         ts = [str(s) for s in m.ansi_settings]
@@ -374,7 +384,8 @@ class Codec:
         forms = [('member', ('member', name)), ('lower', ('str', name.lower())), ('variant', ('str', variant)),
                  ('ints', ('list', [('int', i) for i in ints])), ('intstr', ('str', ';'.join(str(i) for i in ints))),
                  ('nested', ('list', [('tuple', [('member', name)])])),
-                 ('strints', ('tuple', [('str', str(i)) for i in ints]))]
+                 ('strints', ('tuple', [('str', str(i)) for i in ints])),
+                 ('verbatim_obj', ('list', [('obj', t) for t in ts]))]
         ref = A('x', m)
         want = ([ref.settings_at(0)], str(ref))
         viol = []
